@@ -81,10 +81,63 @@ class Run:
 
     # ---------------------------------------------------------- pyvc part
     def verify_functions(self, targets, opts=None, plugins=(), carves=None,
-                         lemmas=True, facts=()):
+                         lemmas=True, facts=(), workers=None):
         """facts: (group, spec expression source, label) -- closed spec-level
         statements (lemma instances over the real constants) discharged with
-        the same back ends"""
+        the same back ends.  The functions are verified in parallel worker
+        processes (one symbolic executor each); results are merged here."""
+        from concurrent.futures import ThreadPoolExecutor
+        targets = list(targets)
+        nw = workers or min(8, max(1, len(targets)))
+        chunks = [[] for _ in range(nw)]
+        for i, t in enumerate(targets):
+            chunks[i % nw].append(t)
+        jobs = []
+        for k, ch in enumerate(chunks):
+            if not ch and k > 0:
+                continue
+            jobs.append({'targets': ch, 'repo': self.repo,
+                         'budget': self.budget, 'opts': opts or {},
+                         'carves': carves or {},
+                         'lemmas': bool(lemmas and k == 0),
+                         'facts': list(facts) if k == 0 else [],
+                         'solver_jobs': max(2, 16 // max(1, len(chunks)))})
+        t0 = time.time()
+
+        def run_job(job):
+            p = subprocess.run(
+                ['python3-vt', os.path.join(VERIF, 'checks', 'worker.py')],
+                input=json.dumps(job), stdout=subprocess.PIPE,
+                stderr=subprocess.PIPE, text=True, cwd=VERIF)
+            if p.returncode != 0 or not p.stdout.strip():
+                return {'error': (p.stderr or p.stdout)[-1500:],
+                        'targets': job['targets']}
+            return json.loads(p.stdout)
+        with ThreadPoolExecutor(len(jobs)) as ex:
+            results = list(ex.map(run_job, jobs))
+        self.timing['verify_wall_s'] = self.timing.get(
+            'verify_wall_s', 0) + time.time() - t0
+        for r in results:
+            if 'error' in r:
+                self.broken.append('worker failed for %s: %s' % (
+                    r['targets'], r['error']))
+                continue
+            for k in ('symexec_s', 'solve_s'):
+                self.timing[k] = self.timing.get(k, 0) + r['timing'][k]
+            self.functions.update(r['functions'])
+            for q, why in r['unsupported']:
+                self.unsupported.append((q, why))
+            self.broken.extend(r['broken'])
+            self.assumptions.update(r['assumptions'])
+            for d in r['items']:
+                it = Item(d['group'], d['kind'], d['label'], d['status'],
+                          d['backend'], d['time'], d['function'], d['props'],
+                          d['witness'], d['note'], d['cls'])
+                self.items.append(it)
+        return None, None
+
+    def verify_in_process(self, targets, opts=None, plugins=(), carves=None,
+                          lemmas=True, facts=(), solver_jobs=None):
         from pyvc import driver, solve
         t0 = time.time()
         eng, ver = driver.build(self.repo, opts, plugins)
@@ -112,8 +165,8 @@ class Run:
         t1 = time.time()
         workdir = os.path.join(VERIF, '.work', 'run%d' % os.getpid())
         solve.discharge(ver, eng.obligations, budget=self.budget,
-                        workdir=workdir)
-        # unknowns: one serial retry with a larger budget
+                        workdir=workdir, jobs=solver_jobs)
+        # unknowns: one retry with a larger budget
         retry = [ob for ob in eng.obligations if ob.status not in (
             'unsat', 'sat')]
         if retry:
